@@ -28,6 +28,10 @@ def main():
         {"t": "coll", "op": "any", "sel": {"ty": "bexpr", "path": ["Tags"]}, "mode": "default", "n1": "t", "n2": "", "e": match(["t"], "==", "t"), "val": "", "hv": False},
         {"t": "coll", "op": "all", "sel": {"ty": "bexpr", "path": ["M"]}, "mode": "both", "n1": "k", "n2": "v", "e": match(["v"], "==", "1"), "val": "", "hv": False},
         match(["0"], "==", "1", ty="ptr"), match(["k"], "==", "1"),
+        # indexes that only some elements have (out of range is an error, not "no match")
+        match(["Tags", "0"], "==", "t"), match(["Tags", "1"], "==", "b"), match(["Tags", "2"], "!=", "b"),
+        {"t": "not", "e": match(["Tags", "1"], "==", "b"), "val": "", "hv": False, "mode": "", "n1": "", "n2": ""},
+        b("or", match(["X"], "==", "1"), match(["Tags", "1"], "==", "b")),
     ]
     world = vlib.api_world("filter", ["conts"], [], data["cfgs"], [0], exprs, 1, conts=conts)
     world["docsel"] = []
